@@ -1081,6 +1081,8 @@ class Interp:
             if self.ev(e["c"], env):
                 return self.ev(e["t"], env)
             return self.ev(e["e"], env) if e.get("e") else None
+        if k == "let":          # `if let P = e` / `while let`: a boolean whose bindings are visible in the guarded branch
+            return self.bind(e["pat"], _plain(self.ev(e["init"], env)), env)
         if k == "ret":
             raise _Return(self.ev(e["e"], env) if e.get("e") else None)
         if k == "break":
@@ -1421,6 +1423,12 @@ class Interp:
                 ty = e.get("ty") or ""
                 if ty.endswith("String"):
                     return "".join(recv)
+                if re.search(r"option::Option<alloc::vec::Vec<", ty):        # collect::<Option<Vec<_>>>(): None if any item is None
+                    if any(x is None for x in recv):
+                        return None
+                    if all(isinstance(x, tuple) and x and x[0] == "Some" for x in recv):
+                        return ("Some", [x[1] for x in recv])
+                    raise NotEvaluable("collect into Option<Vec<_>> of non-Option items")
                 return recv
         if m in ("clone", "as_ref", "borrow", "into", "to_owned") and not args:
             return recv
